@@ -127,6 +127,19 @@ Theorem ufunc_method_unhandled_raises :
 Proof. exact ufunc_method_unhandled_raises_proof. Qed.
 Print Assumptions ufunc_method_unhandled_raises.
 
+(* np.<ufunc>.outer(a, b, ...): with the operand bookkeeping EXTRACTED from the "outer" branch of
+   __array_ufunc__ (loop over reversed(inputs), append before incrementing cum_ndim, list reversed back) the
+   operands reach elemwise in call order, each followed by as many new axes as the operands to its right have
+   in total — NumPy's outer — for every number of operands and every ndim. *)
+Theorem ufunc_outer_operand_order :
+  forall (A : Type) (l : list (A * Z)),
+    match au_outer_order au_facts with
+    | Some o => outer_inputs A o l = np_outer_spec A l
+    | None => False
+    end.
+Proof. exact ufunc_outer_operand_order_proof. Qed.
+Print Assumptions ufunc_outer_operand_order.
+
 Theorem array_coercion_raises :
   forall cls, resolve tables false FUEL cls ArrayCoercion = LfRuntimeError.
 Proof. exact array_coercion_raises_proof. Qed.
